@@ -419,8 +419,9 @@ func (e *Engine) loopEnter(fr *Frame, st *State, l *Loop) {
 	fnKey := funcKey(fr.fn)
 	if l.Spec != nil {
 		if l.Spec.Header != "" && normWS(l.Spec.Header) != l.Text {
-			e.emit(&Obligation{Kind: "contract", Fn: fnKey, Label: fmt.Sprintf("loop-%d-header", l.Ordinal),
-				Unsupp: fmt.Sprintf("loop %d header is %q, contract was written for %q", l.Ordinal, l.Text, l.Spec.Header), Line: l.Spec.Line})
+			// not a failure by itself (a renamed loop variable is harmless): the invariants are checked against
+			// whatever loop now has this ordinal and fail on their own if they no longer fit
+			e.note(fmt.Sprintf("loop %d of %s now reads %q; its invariants were written for %q", l.Ordinal, fnKey, l.Text, l.Spec.Header))
 		}
 		for i, inv := range l.Spec.Invs {
 			env := e.invEnv(fr, st, l)
